@@ -23,6 +23,7 @@ from liquid2.builtin import parse_keyword_arguments
 from liquid2.builtin import parse_primitive
 from liquid2.builtin import parse_string_or_identifier
 from liquid2.exceptions import LiquidSyntaxError
+from liquid2.exceptions import LiquidValueError
 from liquid2.exceptions import TemplateNotFoundError
 
 from .for_tag import ForLoop
@@ -78,6 +79,15 @@ class RenderNode(Node):
             f"{{%{self.token.wc[0]} render {self.name}{var}{args} {self.token.wc[1]}%}}"
         )
 
+    def _length(self, val: Sequence[object]) -> int:
+        try:
+            return len(val)
+        except OverflowError as err:
+            # A range that is longer than the interpreter's `len` can report.
+            raise LiquidValueError(
+                f"'{self.var}' is too big", token=self.token
+            ) from err
+
     def render_to_output(self, context: RenderContext, buffer: TextIO) -> int:
         """Render the node to the output buffer."""
         try:
@@ -111,13 +121,13 @@ class RenderNode(Node):
             key = self.alias or template.name.split(".")[0]
 
             if self.loop and isinstance(val, Sequence) and not isinstance(val, str):
-                context.raise_for_loop_limit(len(val))
+                context.raise_for_loop_limit(self._length(val))
                 # Loops in the rendered template are nested in this one.
-                ctx.loop_iteration_carry *= len(val)
+                ctx.loop_iteration_carry *= self._length(val)
                 forloop = ForLoop(
                     name=key,
                     it=iter(val),
-                    length=len(val),
+                    length=self._length(val),
                     parentloop=context.env.undefined("parentloop", token=self.token),
                 )
 
@@ -178,13 +188,13 @@ class RenderNode(Node):
             key = self.alias or template.name.split(".")[0]
 
             if self.loop and isinstance(val, Sequence) and not isinstance(val, str):
-                context.raise_for_loop_limit(len(val))
+                context.raise_for_loop_limit(self._length(val))
                 # Loops in the rendered template are nested in this one.
-                ctx.loop_iteration_carry *= len(val)
+                ctx.loop_iteration_carry *= self._length(val)
                 forloop = ForLoop(
                     name=key,
                     it=iter(val),
-                    length=len(val),
+                    length=self._length(val),
                     parentloop=context.env.undefined("parentloop", token=self.token),
                 )
 
